@@ -112,17 +112,19 @@ def run(ck):
                 num = call(it, s, "importance_sampling_numerator", vp, v)
                 den = call(it, s, "importance_sampling_denominator", v)
                 ed = it.call_function(VFunc(prog.func(CPLX, "elementwise_division")), [num, den], {}, None)
+                den_p0 = call(it, s, "importance_sampling_denominator", vp)
+                ed_p0 = it.call_function(VFunc(prog.func(CPLX, "elementwise_division")), [num, den_p0], {}, None)
                 if cls == "DensityMatrix":
                     refn = call(it, s, "rho", vp, v, expand=VConst(False))
                     refd = it.call_function(VFunc(prog.func(CPLX, "make_complex")), [call(it, s, "probability", v)], {}, None)
                 else:
                     refn = call(it, s, "psi", vp)
                     refd = call(it, s, "psi", v)
-                return w, ed, num, den, refn, refd
+                return w, ed, num, den, refn, refd, ed_p0
 
             for p in returning(paths_of(prog, th, sticky=True), inst):
                 shape_err_verdict(ck, "C08.R4", inst, [p])
-                w, ed, num, den, refn, refd = p.value
+                w, ed, num, den, refn, refd, ed_p0 = p.value
                 # by value: the complex quotient as a pair of rational functions (a division written out, scaled or not, is the same
                 # function as cplx.elementwise_division; what cannot be taken apart is not decided)
                 same_w = w.term == ed.term
@@ -139,6 +141,10 @@ def run(ck):
                     other_order = True
                 elif cls == "DensityMatrix" and num.term is not None and refn.term is not None and num.term != refn.term and num.term == T.rename_syms(refn.term, {"v": "vp", "vp": "v"}):
                     other_order = True
+                if other_order:
+                    # ... consistently: the weight then divides by the amplitude of its FIRST argument
+                    cw_, ce_ = (T.as_stack0(w.term), T.as_stack0(ed_p0.term)) if w.term is not None and ed_p0.term is not None else (None, None)
+                    other_order = w.term == ed_p0.term or (cw_ is not None and ce_ is not None and len(cw_) == len(ce_) == 2 and all(x_ == y_ or T.ratfun_equal(x_, y_) for x_, y_ in zip(cw_, ce_)))
                 if other_order:
                     ck.undecided("C08.R4", inst + ":hook argument order", wsite, "the importance-sampling hooks take (sample, flipped configuration) in the other order than this rule calls them with; "
                                  "whether every estimator passes them that way is the estimator rules' matter")
